@@ -274,6 +274,10 @@ Proof.
     split; [reflexivity|]. split; [apply CP, canon_join_sp; exact Hi|reflexivity].
   - (* SJoinNl DSplitNl *)
     injection Hd as <-. exists x. cbn [Derive.ser Derive.de]. change [10%N] with [LF]. rewrite join_split_lf, Hr. auto.
+  - (* SJoinNl DSplitNlE: the empty text is the empty list, anything else as above *)
+    injection Hd as <-. exists x. cbn [Derive.ser Derive.de]. split.
+    + destruct x; [reflexivity|]. change [10%N] with [LF]. rewrite join_split_lf. reflexivity.
+    + rewrite Hr. auto.
   - (* SJoinNl DLines *)
     injection Hd as <-. exists x. cbn [Derive.ser Derive.de]. change [10%N] with [LF]. rewrite (dom_value_lines _ _ Hx), Hr. auto.
   - (* SExt DExt *)
